@@ -75,7 +75,7 @@ def scan_assumptions(text, mp):
     return out
 
 
-def run_v_unit(name, tier='quick', seed=0, extra_args=None, _inline=None):
+def run_v_unit(name, tier='quick', seed=0, extra_args=None, _inline=None, _consts=None):
     """Extract, splice, verify one unit. Returns a result dict; never raises for verification outcomes."""
     tmpl = os.path.join(CONTRACTS, name + '.vt')
     os.makedirs(BUILD, exist_ok=True)
@@ -87,7 +87,7 @@ def run_v_unit(name, tier='quick', seed=0, extra_args=None, _inline=None):
                wall_s=0.0, per_function=[], cmd='')
     t0 = time.time()
     try:
-        gen = rsx.build_unit(tmpl, REPO, inline=_inline)
+        gen = rsx.build_unit(tmpl, REPO, inline=_inline, pull_consts=_consts)
     except rsx.ExtractError as ex:
         res['status'] = 'undecided'
         res['undecided'].append(f'extraction: {ex}')
@@ -139,8 +139,13 @@ def run_v_unit(name, tier='quick', seed=0, extra_args=None, _inline=None):
         mo = re.match(r'cannot find function `(\w+)` in this scope', d['message'])
         if mo:
             unknown.add(mo.group(1))
-    if unknown and _inline is None:
-        return run_v_unit(name, tier, seed, extra_args, _inline=sorted(unknown))
+    unknown_c = set()
+    for d in diags:
+        mo = re.match(r'cannot find value `([A-Z][A-Z0-9_]*)` in this scope', d['message'])
+        if mo:
+            unknown_c.add(mo.group(1))
+    if (unknown or unknown_c) and _inline is None and _consts is None:
+        return run_v_unit(name, tier, seed, extra_args, _inline=sorted(unknown), _consts=sorted(unknown_c))
     if j is None or 'verification-results' not in j:
         res['status'] = 'undecided'
         msgs = [d['message'] for d in diags][:5]
